@@ -69,7 +69,7 @@ def text_of(kinds, vals):
 
 
 def klass(kinds, W):
-    s = "+".join(x for x in ("abs", "pct") if x in kinds)
+    s = "+".join(f"{kinds.count(x)}{x}" for x in ("abs", "pct") if x in kinds)
     nn = kinds.count("none")
     return (s or "nothing") + (f"+{nn}unspecified" if nn else "") + ("+caller-mass" if W is not None else "")
 
@@ -179,7 +179,7 @@ def run(tier="quick", seed=0):
     if tier == "quick":
         rng = random.Random(seed)
         big = [k for k in all_kinds if len(k) == 5]
-        all_kinds = [k for k in all_kinds if len(k) <= 4] + rng.sample(big, min(40, len(big)))
+        all_kinds = [k for k in all_kinds if len(k) <= 4] + big
     chunk = 12
     tasks = [{"kinds": all_kinds[i:i + chunk], "seed": seed * 1000 + i, "reps": 2 if tier == "quick" else 6} for i in range(0, len(all_kinds), chunk)]
     res = harness.run_tasks("monitor.drive_C12", "work", tasks, timeout=300 if tier == "quick" else 1800)
